@@ -197,4 +197,41 @@ PROPS = {
         assumptions=["termination is observed within the harness timeout (real time), proved only as a decreasing measure per accepted answer"],
         timeout={"quick": 900, "thorough": 3400},
     ),
+    "C19": dict(
+        props_files=["GoHeader/Props/C19.lean"], gen=["isExpired", "isRecent"], block=True,
+        canon=lambda b: "\n".join([re.sub(r"\b(now|t1)=\S+", "", l) for l in b.split("\n") if l.startswith(("op ", "case ", "C19"))]),
+        nontrivial=lambda b: b.count("op head") >= 2 or "kind=flight" in b,
+        rule="real Syncer.Head over a real Store and a scripted getter with a request log; histories of head calls (peers answering fresh / stale / expired / failing / soft-failing heads, with and without TrustedHead), gossip arrivals and "
+             "clock advances (virtual: the trusting period and recency threshold are shifted, equivalent for stored timestamps); stores empty / with a recent / stale / expired head; plus 2..5 overlapping callers on a gated getter (single flight); "
+             "distinct = distinct history up to absolute timestamps; non-trivial = at least two Head calls or a concurrency case",
+        trusted_base=[KERNEL, GOTOLEAN + " for isExpired / isRecent", HARNESS_TB,
+                      "Head/networkHead/subjectiveHead are hand-modelled as one function of (subjective head, clock, peers' answers); the single-flight wrapper as a 3-event machine; tie = exact comparison of result, getter Head requests and subjective head after every call"],
+        assumptions=["advancing the clock by D is emulated by shifting trustingPeriod and recencyThreshold by -D (sound for stored header times; header times never exceed the real clock)",
+                     "tail maintenance inside Head() is made a no-op by SyncFromHeight=1 (C16 covers it)", "overlapping callers are produced with 15 ms staggering on a gated getter"],
+    ),
+    "C12": dict(
+        props_files=["GoHeader/Props/C12.lean"], gen=[],
+        canon=lambda l: l.split(" => ")[0], nontrivial=lambda l: "call:" in l and "A:" in l,
+        rule="hook-free gated replays of the lost-wake-up window (a datastore read parks the reader between its failed lookup and its subscription) for contiguous and non-contiguous targets x batch sizes; "
+             "seeded random schedules of one flusher and up to 4 readers on the real Store under a deterministic scheduler driving the yield hooks: appends contiguous / gapped / out of order, readers for heights below / at / above Height, cancellations; "
+             "distinct = distinct executed schedule; non-trivial = at least one reader and one append",
+        trusted_base=[KERNEL, HARNESS_TB,
+                      "Store.Conc is a hand model at the granularity of the yield hooks (build tag verif) in store.go / heightsub.go; each segment between two hooks is assumed atomic w.r.t. the other actors (single atomic op or one lock, DESIGN.md A.4)",
+                      "tie = the schedule the controlled scheduler actually executed on the real Store is replayed on the model; readers' results, Head, Height and the retrievable set must agree",
+                      "NOT covered: the Go memory model / data races below hook granularity, real-thread schedules (no -race soak in this revision)"],
+        assumptions=["woken readers reach their next yield within 300 us of the waking flusher step", "batches are processed by the single flush goroutine in queue order"],
+        timeout={"quick": 300, "thorough": 3000},
+    ),
+    "C17": dict(
+        props_files=["GoHeader/Props/C17.lean"], gen=[],
+        canon=lambda l: l.split(" => ")[0], nontrivial=lambda l: "A:" in l,
+        rule="the same controlled-scheduler runs as C12; after EVERY flusher segment the harness (as a reader between two segments) snapshots Head()/Height() and checks that the header returned by Head() is retrievable by hash, by height and through Has; "
+             "monotonicity over the snapshot sequence; the final state is compared with the model's sequential result; distinct = distinct executed schedule; non-trivial = at least one append",
+        trusted_base=[KERNEL, HARNESS_TB,
+                      "Store.Conc is a hand model at the granularity of the yield hooks (build tag verif) in store.go / heightsub.go; each segment between two hooks is assumed atomic w.r.t. the other actors (single atomic op or one lock, DESIGN.md A.4)",
+                      "tie = the schedule the controlled scheduler actually executed on the real Store is replayed on the model; readers' results, Head, Height and the retrievable set must agree",
+                      "NOT covered: the Go memory model / data races below hook granularity, real-thread schedules (no -race soak in this revision)"],
+        assumptions=["writers are serialised by the writes channel (Append = enqueue), so 2..4 writer goroutines differ from one only in queue order", "no DeleteRange in these schedules (its interleavings with Append are covered sequentially by C08: DeleteRange drains the queue first)"],
+        timeout={"quick": 900, "thorough": 3400},
+    ),
 }
